@@ -132,7 +132,9 @@ def diff(a, b, path="", rtol=1e-12, out=None):
             for i, (x, y) in enumerate(zip(a, b)):
                 diff(x, y, "%s[%d]" % (path, i), rtol, out)
     elif isinstance(a, float) and isinstance(b, float):
-        if a != b and not (abs(a - b) <= rtol * max(abs(a), abs(b))):
+        if a != a and b != b:
+            pass        # not-a-number on both sides (a diverged deterministic run saved and read back) is the same content
+        elif a != b and not (abs(a - b) <= rtol * max(abs(a), abs(b))):
             out.append("%s: %r vs %r" % (path, a, b))
     elif isinstance(a, bool) or isinstance(b, bool) or type(a) != type(b):
         if isinstance(a, (int, float)) and isinstance(b, (int, float)) and not isinstance(a, bool) and not isinstance(b, bool):
